@@ -277,7 +277,7 @@ func (fl *Flow) Live(n *GNode) bool { return fl.In[n] != nil }
 // RunFlow runs the forward must-analysis over f.
 func RunFlow(f *FuncInfo, spec *FlowSpec) *Flow {
 	spec = expandSpec(f, spec)
-	g := f.Graph()
+	g := f.flowGraph()
 	fl := &Flow{G: g, C: f.Ctx(), In: map[*GNode]*State{}, Out: map[*GNode]*State{}, EdgeIn: map[*GEdge]*State{}, Spec: spec,
 		forallOK: map[ast.Stmt]map[Fact]bool{}}
 	// Forall facts need a nested fixpoint: first run without them, then decide
